@@ -4,7 +4,7 @@ import KoordVerif.Model.C13
 Driver for C13.  All tokens after the op kind are integers.
 
   pod <slot> <POD>             slot 0 = the pod under admission, 1 = the old pod of an UPDATE
-  profile <name> <matched> <skipRes> <hasProb> <prob> LSTR(qosClass) <hasPrio> <prio> <hasSub> <sub>
+  profile <name> <matched> <skipRes> <hasProb> <prob> LSTR(qosClass) <hasPrio> <prio> <hasSub> <sub> <probInvalid> <pcMissing>
           <nLabels> (<key> LSTR)* <nKeyMap> (<old> <new>)* <nSuffix> (<key> LSTR)*
           <hasPatch> <nPatchLabels> (<key> LSTR)* <hasPatchPrio> <patchPrio> <nPatchRes> (<ctr> <isLimit> <res> <nano>)*
   validate <gateSkipPriority> <op>        -> `verdict <0|1>`
@@ -196,7 +196,7 @@ def pProfile : Parser Profile := fun ts =>
   | name :: m :: sr :: hpb :: pb :: t1 =>
     if name < 0 then none else
     match pLStr t1 with
-    | some (q, hp :: pv :: hs :: sv :: t2) =>
+    | some (q, hp :: pv :: hs :: sv :: pinv :: pcm :: t2) =>
       match pList pKeyStr t2 with
       | none => none
       | some (lbls, t3) =>
@@ -216,7 +216,8 @@ def pProfile : Parser Profile := fun ts =>
           some ({ name := name.toNat, matched := m ≠ 0, skipRes := sr ≠ 0, prob := if hpb ≠ 0 then some pb else none,
                   qos := q, priority := if hp ≠ 0 then some pv else none, subPrio := if hs ≠ 0 then some sv else none,
                   labels := lbls, keyMap := km, suffixes := sfx, hasPatch := hpa ≠ 0, patchLabels := pls,
-                  patchPriority := if hpp ≠ 0 then some pp else none, patchRes := prs }, t7)
+                  patchPriority := if hpp ≠ 0 then some pp else none, patchRes := prs,
+                  probInvalid := pinv ≠ 0, pcMissing := pcm ≠ 0 }, t7)
       | _ => none
     | _ => none
   | _ => none
@@ -284,6 +285,7 @@ def stepLine (st : St) (line : String) : St × List String :=
   | "mutate" :: rest =>
     match ints? rest, st.cur with
     | some [create, gate, rand], some p =>
+      if colocationFails (create ≠ 0) rand st.profiles then (st, ["err1"]) else
       let (p1, flag) := colocationMutate stdRanges (create ≠ 0) (gate ≠ 0) rand st.profiles p
       if create = 0 then ({ st with cur := some p1 }, s!"mut {b2i flag}" :: showPod p1) else
       match mutateByExt p1 with
